@@ -1,6 +1,7 @@
 package an
 
 import (
+	"fmt"
 	"strings"
 
 	"golang.org/x/tools/go/ssa"
@@ -114,6 +115,44 @@ func runC05(p *Prog, r *Report) {
 			})
 			r.Check(okTop, R, rel+"/stops-at-top-bit-word", rc.Pos(), "loop ends at the word whose first byte has bit 0x80 (the request id)", "the backtrace loop does not test the top bit of the first byte of the word just moved")
 		}
+	}
+
+	// every receiver that walks a backtrace (cooked and raw, REP and RESPONDENT) ends it at the
+	// word whose top bit is set — decided by evaluating whatever test the code makes on the
+	// word (first byte & 0x80, first byte >= 0x80, the whole word >= / & 0x80000000, …) for
+	// words around the boundary, 0x80000000 itself included
+	{
+		R := "C05.3/backtrace-parse"
+		n := 0
+		for _, rel := range []string{"protocol/rep", "protocol/respondent", "protocol/xrep", "protocol/xrespondent"} {
+			rc := q.Fn(R, rel, "pipe", "receiver")
+			if !rc.OK() {
+				continue
+			}
+			good, bad := 0, ""
+			rc.EachInstrDeep(func(in ssa.Instruction) {
+				bo, ok := in.(*ssa.BinOp)
+				if !ok {
+					return
+				}
+				if _, cmp := negOp[bo.Op]; !cmp {
+					return
+				}
+				verdict, applies := topBitTest(bo)
+				if !applies {
+					return
+				}
+				if verdict == "" {
+					good++
+				} else {
+					bad = p.InstrPos(in) + ": " + verdict
+				}
+			})
+			n += good
+			r.Check(good >= 1 && bad == "", R, rel+"/top-bit-test-exact", rc.Pos(), "the end-of-backtrace test is true exactly for words with the top bit set", "the end-of-backtrace test of the "+rel+" receiver is not `top bit of the word set`: "+bad+" — a request whose id word sits on the boundary (0x80000000) is parsed past its id (dropped, or payload bytes taken for routing data)")
+		}
+		r.Count("c05.top_bit_tests", n)
+		r.Floor(R, "c05.top_bit_tests", 4)
 	}
 
 	r.Describe("C05.6/route-recorded", "the route back is a private copy (cooked) / the arrival pipe id (raw)")
@@ -358,4 +397,97 @@ func privateCopyOfHeader(f *F, st *Ev) bool {
 		}
 	}
 	return false
+}
+
+
+// topBitTest: cmp is a comparison over the first byte of a 4-byte word of a message buffer
+// (X.Body[0], X.Header[len-4]) or over the whole word (BigEndian.Uint32 of it).  It is
+// evaluated for words around the boundary and compared with "top bit set"; the result is ""
+// when it is that test (in either polarity), a counter-example otherwise.  applies=false when
+// the comparison is about something else (a length check, a hop count).
+func topBitTest(cmp *ssa.BinOp) (string, bool) {
+	var byteLeaf, wordLeaf []string
+	var walk func(v ssa.Value, d int)
+	walk = func(v ssa.Value, d int) {
+		if d > 5 {
+			return
+		}
+		switch x := v.(type) {
+		case *ssa.BinOp:
+			walk(x.X, d+1)
+			walk(x.Y, d+1)
+		case *ssa.Convert:
+			walk(x.X, d+1)
+		case *ssa.ChangeType:
+			walk(x.X, d+1)
+		case *ssa.UnOp:
+			ds := Desc(x)
+			if strings.HasSuffix(ds, ".Body[0]") || (strings.Contains(ds, ".Header[(len(") && strings.HasSuffix(ds, ") - 4)]")) {
+				byteLeaf = append(byteLeaf, ds)
+			}
+		case *ssa.Call:
+			if CalleeName(&x.Call) == "binary.(bigEndian).Uint32" {
+				wordLeaf = append(wordLeaf, Desc(x))
+			}
+		}
+	}
+	walk(cmp, 0)
+	if len(byteLeaf)+len(wordLeaf) == 0 {
+		return "", false
+	}
+	// hop counters compare such bytes too (xstar/pair1 are not analysed here, but be safe):
+	// only comparisons against a constant with bit 7 / bit 31 in play
+	involves := false
+	for _, side := range []ssa.Value{cmp.X, cmp.Y} {
+		var c func(v ssa.Value, d int)
+		c = func(v ssa.Value, d int) {
+			if d > 4 {
+				return
+			}
+			switch x := v.(type) {
+			case *ssa.Const:
+				if k, ok := ConstInt(x); ok && (k == 0x80 || k == 0x7f || k == 0x80000000 || k == 0x7fffffff) {
+					involves = true
+				}
+			case *ssa.BinOp:
+				c(x.X, d+1)
+				c(x.Y, d+1)
+			case *ssa.Convert:
+				c(x.X, d+1)
+			}
+		}
+		c(side, 0)
+	}
+	if !involves {
+		return "", false
+	}
+	agreePos, agreeNeg := true, true
+	counter := ""
+	for _, w := range []int64{0, 1, 0x7fffffff, 0x80000000, 0x80000001, 0xffffffff, 0x80ffffff, 0x7f000000} {
+		env := map[string]int64{}
+		for _, l := range byteLeaf {
+			env[l] = w >> 24
+		}
+		for _, l := range wordLeaf {
+			env[l] = w
+		}
+		v, known := evalBool(cmp, env)
+		if !known {
+			return "", false
+		}
+		want := w&0x80000000 != 0
+		if v != want {
+			agreePos = false
+			if counter == "" {
+				counter = fmt.Sprintf("`%s` is %v for the word %#08x", NormAtom(cmp, true), v, w)
+			}
+		}
+		if v == want {
+			agreeNeg = false
+		}
+	}
+	if agreePos || agreeNeg {
+		return "", true
+	}
+	return counter, true
 }
